@@ -1,5 +1,6 @@
 """C16: opening book against Book.tla."""
 import json
+import random
 import os
 import sys
 
@@ -47,7 +48,7 @@ def trie_shards(ops, nshards):
     return out
 
 
-def uci_part(chk, pid, wd, gs, bpath, quick, seed):
+def uci_part(chk, pid, wd, gs, bpath, quick, seed, variants=()):
     """Follows the engine's own book answers from the start position: position startpos moves m1..mk; go - every answer is
     judged by UciTrace.tla against the book the specification built (membership) and the rules (legality)."""
     from concurrent.futures import ThreadPoolExecutor
@@ -100,9 +101,68 @@ def uci_part(chk, pid, wd, gs, bpath, quick, seed):
             status = -999
         ev.append({"ev": "Exit", "status": status, "stderr": [], "wall_s": 0})
         return ev, len(moves)
+    def variant_session(kv):
+        """Positions with a book placement but another history (rights lost, en-passant target cleared): go on each."""
+        k, fens = kv
+        ev = [{"ev": "Session", "id": 100000 + k, "wellformed": True, "pacing": "book-variants"}]
+        eng = uci_driver.Engine(cli)
+        answered = 0
+        for fen in fens:
+            ev.append({"ev": "In", "kind": "position", "base": "fen", "fen": list(fen), "pos": uci_driver.fen_to_pos(fen), "moves": [], "valid": True})
+            eng.send("position fen " + fen)
+            eng.send(".state")
+            got = eng.read_err_fen(25.0)
+            ev.append({"ev": "State", "fen": list(got) if got else [], "seen": got is not None, "pos": uci_driver.fen_to_pos(got) if got else uci_driver.EMPTY_POS})
+            eng.send("isready")
+            lines, ok = eng.read_until(lambda l: l.strip() == "readyok", 25.0)
+            ev += [uci_driver.classify(l) for l in lines]
+            # the book answers with a random one of its moves: ask again while it answers, to see more of what it offers
+            for rep in range(8):
+                ev.append({"ev": "In", "kind": "go"})
+                eng.send("go depth 1")
+                lines, ok = eng.read_until(lambda l: l.startswith("bestmove"), 25.0)
+                out = [uci_driver.classify(l) for l in lines]
+                book = any(o.get("kind") == "book" for o in out)
+                if not book:
+                    ev.append({"ev": "SearchStart", "fresh": True, "history_len": -1, "table_entries": -1})
+                else:
+                    answered += 1
+                ev += out
+                if not ok:
+                    ev.append({"ev": "Hang", "after": "go", "waited_s": 25.0})
+                    break
+                eng.send("isready")
+                lines, ok = eng.read_until(lambda l: l.strip() == "readyok", 25.0)
+                ev += [uci_driver.classify(l) for l in lines]
+                if not book or not ok:
+                    break
+            if not ok:
+                break
+        ev.append({"ev": "In", "kind": "quit"})
+        eng.send("quit")
+        try:
+            status = eng.p.wait(timeout=25)
+        except Exception:
+            eng.p.kill()
+            status = -999
+        ev.append({"ev": "Exit", "status": status, "stderr": [], "wall_s": 0})
+        return ev, answered
     n = 24 if quick else 400
+    rnd = random.Random(seed)
+    # variants in which a move recorded for the same placement (with the rights / target of the games) is not legal come first
+    rel = json.load(open(bpath))
+    by_place = {}
+    for k, ms in rel.items():
+        by_place.setdefault(" ".join(k.split()[:2]), set()).update(ms)
+    vs = sorted(set(variants))
+    rnd.shuffle(vs)
+    sharp = [f for f, legal in vs if by_place.get(" ".join(f.split()[:2]), set()) - set(legal)]
+    dull = [f for f, legal in vs if not (by_place.get(" ".join(f.split()[:2]), set()) - set(legal))]
+    vs = (sharp[:(120 if quick else 3000)] + dull)[:(160 if quick else 4000)]
+    vgroups = [(i, vs[i::16]) for i in range(16) if vs[i::16]]
     with ThreadPoolExecutor(max_workers=8) as ex:
-        rs = list(ex.map(one, range(n)))
+        rs = list(ex.map(one, range(n))) + list(ex.map(variant_session, vgroups))
+    n = len(rs)
     paths = []
     for i in range(0, n, max(1, n // NPROC)):
         pth = os.path.join(wd, "bookuci_%03d.ndjson" % i)
@@ -121,7 +181,8 @@ def uci_part(chk, pid, wd, gs, bpath, quick, seed):
             if d.get("prop") == pid:
                 chk.violation("|".join([pid, str(w.get("kind")), str(w.get("pos", "")), str(w.get("mv", ""))]), "UCI: %s: %s" % (w.get("kind"), json.dumps({a: b for a, b in w.items() if a != "kind"}, sort_keys=True)),
                               {"module": "UciTrace", "trace": r["trace"], "diag": d})
-    chk.coverage["uci_book_sessions"] = {"sessions": n, "book_answers_followed": sum(m for _, m in rs)}
+    chk.coverage["uci_book_sessions"] = {"sessions": n, "book_answers_followed": sum(m for _, m in rs[:len(rs) - len(vgroups)]),
+                                         "history_variants_asked": len(vs), "variants_answered_from_book": sum(m for _, m in rs[len(rs) - len(vgroups):])}
     chk.coverage["traces_validated_against_impl"] = chk.coverage.get("traces_validated_against_impl", 0) + len(paths)
 
 
@@ -173,17 +234,20 @@ def check_book(pid, tier, seed):
     # the same relation through the UCI front end: along book games `position startpos moves ...; go` must be answered from
     # the book with a recorded move while the position is a book position, and searched once it is not
     book_rel = {}
+    variants = []
     for o in outs:
         for l in open(o):
             if l.startswith('<<"GEN"'):
                 g = json.loads(l[len('<<"GEN", "'):-len('">>') - 1].replace('\\"', '"').replace("\\\\", "\\"))
+                if g.get("kind") == "variant":
+                    variants.append((g["fen"], tuple(sorted(m[:4] + (m[6].lower() if m[6] != "." else "") for m in g["legal"]))))
                 if g.get("kind") == "entry":
                     m = g["mv"]
                     book_rel.setdefault(g["key"], set()).add(m[:4] + (m[6].lower() if m[6] != "." else ""))
     bpath = os.path.join(wd, "book_rel.json")
     with open(bpath, "w") as f:
         json.dump({k: sorted(v) for k, v in book_rel.items()}, f)
-    uci_part(chk, pid, wd, gs, bpath, quick, seed)
+    uci_part(chk, pid, wd, gs, bpath, quick, seed, variants)
     for j in jobs:
         try:
             os.remove(j["stdout_path"])
